@@ -525,12 +525,13 @@ def classify_return(path):
     return "other"
 
 
-def emptiness_of(p, is_target):
+def emptiness_of(p, is_target, last=False):
     """First decision on path p about whether the collection x with is_target(x) is empty, however it is spelled:
     `x.is_empty()`, `x.len() == 0` / `!= 0`, `match x.len() { 0 => .., _ => .. }`, with leading negations.
     True (empty) / False (non-empty) / None (not tested)."""
     from . import terms as T
     body = p.body
+    res = None
     for i, blk in enumerate(p.blocks[:-1]):
         t = body.blocks[blk]["term"]
         if t["k"] != "switch":
@@ -542,13 +543,21 @@ def emptiness_of(p, is_target):
             v, neg = v[2], not neg
         zero_t = t["tgts"][t["vals"].index("0")] if "0" in t["vals"] else None
         if T.is_call(v, r"::is_empty$") and len(v[2]) == 1 and is_target(T.peel(v[2][0])) and zero_t is not None:
-            return (nxt != zero_t) != neg
+            res = (nxt != zero_t) != neg
+            if not last:
+                return res
+            continue
         if isinstance(v, tuple) and v[0] == "bin" and v[1] in ("Eq", "Ne") and T.is_const_int(v[3], 0) and zero_t is not None:
             a = T.peel(v[2], payloads=False)
             if T.is_call(a, r"::len$") and len(a[2]) == 1 and is_target(T.peel(a[2][0])):
                 truth = (nxt != zero_t) != neg
-                return truth if v[1] == "Eq" else not truth
+                res = truth if v[1] == "Eq" else not truth
+                if not last:
+                    return res
+                continue
         a = T.peel(v, payloads=False) if isinstance(v, tuple) else v
         if T.is_call(a, r"::len$") and len(a[2]) == 1 and is_target(T.peel(a[2][0])) and zero_t is not None:
-            return nxt == zero_t
-    return None
+            res = nxt == zero_t
+            if not last:
+                return res
+    return res
